@@ -137,9 +137,6 @@ def classify_files(wm, before, after, twin_after):
         if a is None or a["t"] != "f":
             out[p] = "missing"
             continue
-        if a["mode"] != b["mode"]:
-            out[p] = "other"
-            continue
         tw_ins = core.explain(b["data"], t["data"]) if t is not None and t["t"] == "f" else None
         if a["data"] == b["data"]:
             out[p] = "original" if tw_ins else "unchanged-noop"
